@@ -56,9 +56,10 @@ RowFields(w) == [t |-> w.t, perm |-> w.perm, uid |-> w.uid, gid |-> w.gid, size 
                  tgt |-> w.tgt, data |-> w.data, xa |-> XaOf(w.xa), rdev |-> w.rdev]
 RECURSIVE SumNames(_, _)
 SumNames(T, ds) == IF ds = {} THEN 0 ELSE LET d == CHOOSE x \in ds : TRUE IN Cardinality(DOMAIN T.dent[d]) + SumNames(T, ds \ {d})
+NoSize(x) == [x EXCEPT !.size = 0, !.data = <<>>]
 BadRows(T, m) == {p \in DOMAIN m : LET w == m[p] IN
     ~(/\ w.id \in Ids(T)
-      /\ RowProj(T, w.id) = RowFields(w)
+      /\ IF w.id \in X.big THEN NoSize(RowProj(T, w.id)) = NoSize(RowFields(w)) ELSE RowProj(T, w.id) = RowFields(w)
       /\ (w.par = 0 \/ (w.par \in DOMAIN T.dent /\ w.name \in DOMAIN T.dent[w.par] /\ T.dent[w.par][w.name] = w.id)))}
 ModelMatches(T, m) == BadRows(T, m) = {} /\ SumNames(T, DOMAIN T.dent) = Cardinality(DOMAIN m) - 1
 
@@ -90,7 +91,7 @@ StEq(p, h, e) == IF p.st = "OK" \/ h.st = "OK" THEN p.st = h.st
                  ELSE (Cardinality(e.errs) # 1 \/ p.st = h.st \/ p.st \in e.errs)
 \* what the model returns against what the shadow logged
 RetMatches(ret, h) ==
-  /\ (Has(ret, "t") => Has(h, "attr") /\ h.attr = ret)
+  /\ (Has(ret, "t") => Has(h, "attr") /\ (IF ret.id \in X.big THEN [h.attr EXCEPT !.size = 0] = [ret EXCEPT !.size = 0] ELSE h.attr = ret))
   /\ (Has(ret, "data") => Has(h, "data") /\ h.data = ret.data)
   /\ (Has(ret, "tgt") => Has(h, "tgt") /\ h.tgt = ret.tgt)
   /\ (Has(ret, "n") => Has(h, "n") /\ h.n = ret.n)
@@ -181,7 +182,7 @@ GateJudge(r) ==
     \* positive control: a name that passes the gate does reach the backend
     /\ GatedName(r.nk, r.op = "lookup") \/ Cal(r.calls # <<>>, "gate-control|" \o r.op \o "|" \o r.nk, r))
 
-Init == l = 1 /\ S = Empty /\ hrows = <<>> /\ X = [none |-> TRUE] /\ pre = <<>> /\ outs = {} /\ creds0 = [none |-> TRUE] /\ sync = TRUE /\ cal = TRUE /\ taint = {}
+Init == l = 1 /\ S = Empty /\ hrows = <<>> /\ X = [none |-> TRUE, big |-> {}] /\ pre = <<>> /\ outs = {} /\ creds0 = [none |-> TRUE] /\ sync = TRUE /\ cal = TRUE /\ taint = {}
 Step ==
   /\ l <= Len(Rec)
   /\ LET r == Rec[l] IN
@@ -191,7 +192,8 @@ Step ==
             /\ S' = StateOf(r.host_rows)
             /\ hrows' = RowMap(r.host_rows)
             /\ X' = [root |-> RootOf(r.host_rows), no_open |-> r.cfg.eff_no_open, no_opendir |-> r.cfg.eff_no_opendir, xattr |-> r.cfg.xattr,
-                     seal |-> r.cfg.seal, via |-> r.cfg.via, ifh |-> r.cfg.ifh, mode |-> r.mode]
+                     seal |-> r.cfg.seal, via |-> r.cfg.via, ifh |-> r.cfg.ifh, mode |-> r.mode,
+                     big |-> {r.host_rows[k].id : k \in {j \in DOMAIN r.host_rows : r.host_rows[j].size > 64}}]
             /\ pre' = LET regs == {k \in DOMAIN r.pt_rows : r.pt_rows[k].t = "reg"} IN
                       [i \in {r.pt_rows[k].id : k \in regs} |-> LET z == r.pt_rows[CHOOSE k \in regs : r.pt_rows[k].id = i].size IN [size0 |-> z, cur |-> z]]
             /\ outs' = {r.pt_out[k].id : k \in DOMAIN r.pt_out}
